@@ -42,6 +42,18 @@ CHECKS = {
    text="TLC checks on every pair of ordered report/observation grids over 5 ticks (lengths <=4 quick, <=5 thorough; ties and repeated times), for one, two and three series, that the PlusCal model of subsample's two-pointer scan and of get_time_shift's loop equal their declarative definitions (last observation at or before the report time, final value held; first time the series reaches the threshold), with loop invariants and a termination variant. On every weighted graph on <=4 (thorough <=5) nodes and every ordered degree sequence in the bound plus configuration-model sequences up to degree 8 it checks psi(1)=1, psi'(1)=<k>, psi''(1)=<k^2-k>, coeff(D psi)[k-1]=k*coeff(psi)[k], node-wise = coefficient-wise evaluation, Pnk row sums and symmetry, and the R0 identities in exact rational arithmetic. TLC prints input -> expected output from the definitions; every record is replayed into the real subsample (1-3 series), get_time_shift, get_Pk, get_Pnk, get_PGF/Prime/DPrime at x in {1/4,1/2,3/4,1} and estimate_R0: step values exactly, rationals within 1e-12.",
    note="Exhaustive only within the stated bounds; series values are all 0/1 vectors plus index-revealing shapes. Trusts TLC and its PlusCal translation. The Pnk row of degree 0, R0 on edgeless graphs, get_time_shift with an unreached threshold and subsample inputs violating report[0] >= times[0] are unconstrained by the property and not judged.",
    technique="TLA+ specs (Subsample: PlusCal algorithm vs declarative definition; DegreeDist: exact-rational generating-function identities) model-checked with TLC; TLC-emitted input->output records replayed into the real functions"),
+ "C06": dict(level="model_checking", ref="DESIGN.md §5 C06",
+   text="InitCond.tla defines every initial quantity the ODE wrappers derive from a graph and an initial condition (S0,I0,R0, degree-class, ordered-pair, degree-pair, effective-degree, kappa, node and pair indicators, theta0) declaratively as configuration counts - for explicit infected/recovered sets and, as exact rationals by brute force over all infected sets, for rho=a/b. TLC checks their mutual consistency and the docstrings' closed forms on every labelled graph with 2..4 nodes (isolated nodes included) x every initial condition of the family and emits scenario -> expected values. All 50 SIS_/SIR_/EBCM entry points of analytic.py (28 graph wrappers; 22 graph-free solvers fed with the emitted values) are called with return_full_data on and off, and index 0 of every returned series is compared in the entry point's own documented order (table extracted from the docstrings and re-verified against them at run time): exact for explicit sets, 1e-9 for rho. Every returned (t,S,I[,R]) over rates incl. 0, two time grids and 4-6 node graphs is validated by TLC as a trace of CompartmentFlow.tla (conservation, bounds, SIR monotonicity, tau=0/gamma=0 guards, one-step recovery of the discrete models, linspace grid, row count) with a total monitor that names the failing row and clause.",
+   note="Part (b) is trace validation of a monitor: the quantification over inputs comes from the scenario generator, not from TLC. Node labels are 0..n-1 in natural order (label dependence is C14); auxiliary series under rho and docstring arity mismatches explained by the sibling's docstring are NOTEs. rho=None defaults and single-node initial_infecteds are outside the family. Tolerances: 1e-12 explicit sets, 1e-9 rho, traces eps = 1e-6*N + 2e-6.",
+   technique="TLA+ specs (InitCond; CompartmentFlow + TraceCompartmentFlow) model-checked with TLC; TLC-emitted expected initial values replayed into every ODE entry point; batched TLC trace validation of the returned trajectories"),
+ "C03": dict(level="model_checking", ref="DESIGN.md §5 C03",
+   text="SimpleContagion.tla is the reference chain of Gillespie_simple_contagion for a user model (spontaneous and neighbour-induced transitions with rates, node/edge weight tables, directed or undirected contact graph); TLC checks it on every scenario x status vector (exactly one node moves along a model edge, inducer keeps its status) and emits the rate-labelled transition system; the real simulator's complete decision tree to an event horizon is enumerated under the scripted random source for SIS, SIR, SIRS, SEIR, SIRV, competing/cooperating diseases, same-status inducers, curing neighbours, spontaneous-only and generated 3-status models, with weight labels (incl. 0), rate functions (incl. asymmetric) and tuple statuses, and compared at every history: enabled events, exact probabilities (two-stage choice and rejection folded), clock rate, stop states, rows, both return modes.",
+   note="3-node contact graphs, event horizon 3 (quick) / 4 (thorough); trusts TLC and the scripted source (unmodelled draw = exit 2); float comparison 1e-9 relative.",
+   technique="TLA+ spec (SimpleContagion) model-checked with TLC; spec-to-code replay of the TLC state graph with exact kernel comparison"),
+ "C15": dict(level="model_checking", ref="DESIGN.md §5 C15",
+   text="ComplexContagion.tla specifies the chain of Gillespie_complex_contagion for a table-driven user model (threshold contagion, SIR as complex contagion, cyclic 3-status, distance-2 influence, neighbour-dependent chooser) together with the implementation-shaped bag of rates that is re-rated only for the changed node and its influence set; TLC checks rates[v] = Rate(v, st) in every reachable state, stop iff all rates are zero, and must find a stale rate for a deliberately inadequate influence set (non-vacuity control); the emitted rate-labelled graph is walked by the real simulator (user callbacks generated from the same table) with exact comparison of next-node probabilities, clock rate, chooser result, stopping and rows at every history.",
+   note="Graphs on 3-4 nodes, horizon 4-6 events; trusts TLC and the scripted source.",
+   technique="TLA+ spec (ComplexContagion, reference + implementation-shaped bag) model-checked with TLC; spec-to-code replay with exact kernel comparison"),
 }
 NOT_YET = "check not built yet in this round (planned in DESIGN.md §5); not claimed"
 NA = {"C07": "pure numerical agreement between floating-point solutions of different ODE systems: no discrete state, history or finite oracle a TLA+ specification could enumerate (DESIGN.md §7)"}
